@@ -337,6 +337,16 @@ pub fn gen_c07(ctx: &Ctx, rng: &mut Rng, out: &mut Vec<String>) {
         let (cmd2, args2) = match (i / 4) % 3 { 0 => ("view", "-O npy"), 1 => ("fold", "--precision 17"), _ => ("stat", "-s sum --precision 17") };
         out.push(format!("io.pipe\t-O {fmt} --precision {p}\t{transport}\t{cmd2}\t{args2}\t{}\t{}", nats(&shape), bits(&data)));
     }
+    // larger spectra through real pipes: values whose bytes contain 0x0a (stdout is line buffered), more than a pipe buffer of data
+    for (i, side) in [21usize, 40, 64].into_iter().enumerate() {
+        let n = side * side;
+        // the position of the last 0x0a byte decides what a line-buffered stdout does with the rest: first value only / middle / everywhere
+        let last_nl = match i { 0 => 0, 1 => n / 2, _ => n - 1 };
+        let data: Vec<f64> = (0..n).map(|j| if j == last_nl || (i == 2 && j % 5 == 0) { 3.25 } else { (j % 7) as f64 }).collect();
+        for (fmt, transport, cmd2, args2) in [("npy", "pipe", "view", "-O npy"), ("npy", "file", "view", "-O npy"), ("text", "pipe", "view", "-O npy"), ("npy", "pipe", "stat", "-s sum --precision 17")] {
+            out.push(format!("io.pipe\t-O {fmt} --precision 6\t{transport}\t{cmd2}\t{args2}\t{side},{side}\t{}", bits(&data)));
+        }
+    }
     // (e) text -> npy -> text at the same precision
     for _ in 0..(if t { 300 } else { 40 }) {
         let shape = shapes::random_shape(rng, 1, 3, 1, 4, 30);
@@ -447,7 +457,13 @@ pub fn gen_c15(ctx: &Ctx, rng: &mut Rng, out: &mut Vec<String>) {
                     let family = r != 1;
                     let d = dict_spelling(rng, &format!("{en}{ty}"), false, &shape, family);
                     let pad = !(r == 0 && ti % 2 == 0);
-                    out.push(format!("io.npyread\t{}", hex(&frame(major, (r % 2) as u8, &d, &body, rng, pad))));
+                    let file = frame(major, (r % 2) as u8, &d, &body, rng, pad);
+                    out.push(format!("io.npyread\t{}", hex(&file)));
+                    // the same file through a buffered reader whose chunks are not aligned to the item size
+                    if family {
+                        let sc: Vec<usize> = match r % 3 { 0 => vec![file.len() - body.len() + 3, 5, 7, 3], 1 => vec![50, 21, 9, 50, 21, 9, 50, 21, 9], _ => vec![1; file.len()] };
+                        out.push(format!("io.rdnpy\t{}\t{}\tN", hex(&file), nats(&sc)));
+                    }
                 }
             }
         }
